@@ -26,6 +26,8 @@ C = {
          "trusted: TLC, tokio paused clock; integer-millisecond backoffs with multiplier 2", 'sim'),
  'C14': ("spec/Backoff.tla is the schedule state machine delay(0) = min(initial, cap), delay(a+1) = min(delay(a)*m, cap) with saturation; TLC checks monotonicity, the cap and where the schedule ends for large attempts over a grid. The real ExponentialBackoff, ExponentialRandomBackoff, FixedInterval and every ReconnectPolicy constructor are called for attempts 0..200 (10^4 thorough) densely and 2^k, 2^k+-1 up to usize::MAX over the grid initial {0,1,100 ms,1 s,a day} x multiplier {1,3/2,2,10} x cap {absent, below initial, 5000, two years} x jitter {0,1/2,1} plus seeded random configurations; every returned delay is validated against the machine (a panic has no matching action); a default ReconnectLayer and a RetryLayer run hundreds (10^4 thorough) of attempts against a dead backend under virtual time.",
          "trusted: TLC; delays compared in whole units (ms or s) rounded to nearest, one unit of slack for the non-integer multiplier; jitter checked as an interval; all attempt numbers are sampled, not exhausted", 'sequential'),
+ 'C16': ("spec/Reconnect.tla is the reconnect loop of one request (and of several sharing the published state): calls <= max_attempts+1, retry only after a reconnectable error, the policy's delay before each retry (exactly, under the urgent executor; the index base of the policy is chosen once per run by TLC), result rules for MaxAttemptsExceeded/ConnectionFailed/ConnectionFailedNoRetry/ServiceError with the last inner error's payload, published connection state. TLC explores all outcome sequences for 1-2 requests over max_attempts {unlimited,0,1,2} x policies {none,fixed,exponential,custom} x both flags x predicate; generated behaviours and seeded random runs (also jittered policy) execute in the real ReconnectLayer and every trace is validated.",
+         "trusted: TLC, tokio paused clock; ReconnectError is classified by its Display text because the type is not re-exported", 'sim'),
 }
 def main():
     props = [json.loads(l) for l in open(os.path.join(ROOT, 'properties.jsonl'))]
